@@ -112,7 +112,7 @@ def oracle_stream(case, evs):
                     return "dir %d: shutdown failed with errno %d" % (dirn, e[2])
                 shut = True
             elif t == 6:
-                if not (e[3] == 105 and e[6] in (3, 4)):
+                if not (e[3] == 105 and e[6] in (3, 4, 7, 8)):
                     return "dir %d: receive op %d failed with errno %d" % (dirn, e[2], e[3])
             elif t == 3:
                 _, _, idx, n, pos, h, kind = e
@@ -130,13 +130,16 @@ def oracle_stream(case, evs):
                 gaps += pos - rpos
                 rpos = pos
                 data = [pat(sd, rpos + i) for i in range(n)]
-                if k == 1:
+                if k in (1, 6):
                     cap = a
                     st = vec_state(min(b, a), a, data)
                 elif k == 2:
                     caps = split_sizes(a, clamp(b, 1, 8))
                     cap = sum(caps)
                     st = vectored_state(caps, data)
+                elif k == 8:
+                    cap = plen if drv == 1 else plen - 16 - 128 - 64
+                    st = managed_state(data)
                 else:
                     cap = managed_cap(plen, a)
                     st = managed_state(data) if (n > 0 or k == 4) else [0]
